@@ -672,6 +672,7 @@ impl Group {
         let mut arrived = false;
         let mut ready = false;
         // (overall safety net: nothing in the controller may wait for ever)
+        let t_start = Instant::now();
         let r = tokio::time::timeout(WD * 5, self.clone().run_conn_inner(&rec, &mut ev_rx, &mut res, &cfg, &scen, strike_member, &mut arrived, &mut ready)).await;
         match r {
             Ok(Err(note)) => res.notes.push(note),
@@ -680,6 +681,9 @@ impl Group {
                 res.notes.push("controller-watchdog".into());
             }
             Ok(Ok(())) => {}
+        }
+        if std::env::var("LC_TRACE").is_ok() && t_start.elapsed() > Duration::from_secs(2) {
+            eprintln!("SLOWCONN {:?} {} | {}", t_start.elapsed(), scen.line(0), cfg.line());
         }
         // never leave anything of this connection blocked
         rec.hold.open();
@@ -908,39 +912,42 @@ impl Group {
         let mut ws = Some(ws);
         match scen.cause.as_str() {
             "close" => {
-                let _ = ws.as_mut().unwrap().send(WsMsg::Close(None)).await;
+                let _ = tokio::time::timeout(wd(), ws.as_mut().unwrap().send(WsMsg::Close(None))).await;
             }
             "drop" => {
                 drop(ws.take());
             }
             "proto" => {
-                let _ = ws.as_mut().unwrap().send(WsMsg::Text("not binary".into())).await;
+                let _ = tokio::time::timeout(wd(), ws.as_mut().unwrap().send(WsMsg::Text("not binary".into()))).await;
             }
             "protog" => {
                 let w = ws.as_mut().unwrap();
-                let _ = w.get_mut().write_all(&[0xFFu8; 24]).await;
-                let _ = w.get_mut().flush().await;
+                let _ = tokio::time::timeout(wd(), async {
+                    let _ = w.get_mut().write_all(&[0xFFu8; 24]).await;
+                    let _ = w.get_mut().flush().await;
+                })
+                .await;
             }
             "toobig" => {
                 // larger than the server's inbound message limit (1 MiB in `lim` groups): tungstenite refuses it
                 let _ = tokio::time::timeout(wd(), ws.as_mut().unwrap().send(WsMsg::Binary(vec![0u8; 3 << 20]))).await;
             }
             "malformed" => {
-                let _ = ws.as_mut().unwrap().send(WsMsg::Binary(vec![1, 2, 3, 4, 5, 6, 7, 8, 9, 10])).await;
+                let _ = tokio::time::timeout(wd(), ws.as_mut().unwrap().send(WsMsg::Binary(vec![1, 2, 3, 4, 5, 6, 7, 8, 9, 10]))).await;
             }
             "malformeds" => {
                 let mut f = RawFrame::request(77, false, 1, b"/echo", 2, b"1");
                 f.h.spec = 0x1234;
-                let _ = ws.as_mut().unwrap().send(WsMsg::Binary(f.to_vec())).await;
+                let _ = tokio::time::timeout(wd(), ws.as_mut().unwrap().send(WsMsg::Binary(f.to_vec()))).await;
             }
             "malformedl" => {
                 let mut f = RawFrame::request(78, false, 1, b"/echo", 2, b"1");
                 f.h.length += 5;
-                let _ = ws.as_mut().unwrap().send(WsMsg::Binary(f.to_vec())).await;
+                let _ = tokio::time::timeout(wd(), ws.as_mut().unwrap().send(WsMsg::Binary(f.to_vec()))).await;
             }
             "hpanic" => {
                 if phase != "inline" {
-                    let _ = ws.as_mut().unwrap().send(request(3, "/panic", &json!({ "k": scen.payload.to_string() }), false)).await;
+                    let _ = tokio::time::timeout(wd(), ws.as_mut().unwrap().send(request(3, "/panic", &json!({ "k": scen.payload.to_string() }), false))).await;
                 }
             }
             "cpanic" => {}
@@ -1377,6 +1384,8 @@ fn fill_scen(rng: &mut Rng, cfg: &GroupCfg, idx: String, phase: &str, cause: &st
     }
     // (only while the reader is reading: a 3 MiB send to a reader that is blocked or held would never complete)
     let cause = if cfg.lim && cause == "protog" && matches!(phase, "idle" | "parked" | "parkedfut") && rng.chance(1, 2) { "toobig" } else { cause };
+    // (garbage is only partly read by the server: through a tiny pipe the rest of it could never be written)
+    let cause = if cfg.frag > 0 && cause == "protog" { "proto" } else { cause };
     let payload = if cause == "cpanic" || cause == "hpanic" { *rng.pick(&[' ', 's', 'n']) } else { ' ' };
     // never more notifies than the channel holds: `try_send` must not depend on the writer's progress
     let mut budget = cfg.cap.min(6);
@@ -1548,6 +1557,9 @@ fn parse_replay(ops: &[String]) -> Vec<AnyPlan> {
                     };
                     p.steps.push(step);
                 }
+            }
+            Some("hsrun") if w.len() >= 4 => {
+                plans.push(AnyPlan::HsRun(HsRun { idx: w[1].into(), nrej: w[2].parse().unwrap_or(1), nacc: w[3].parse().unwrap_or(1) }));
             }
             Some("burst") if w.len() >= 5 => {
                 plans.push(AnyPlan::Burst(BurstPlan { idx: w[1].into(), entry: Entry::parse(w[2]).expect("entry"), n: w[3].parse().unwrap_or(16), end: w[4].into(), reps: 80 }));
@@ -2110,6 +2122,45 @@ async fn run_hs(plan: HsPlan, server_rt: &tokio::runtime::Runtime, out: &Mutex<O
         let mut accepted = false;
         let mut note = None;
         match tokio::time::timeout(wd(), tokio::net::TcpStream::connect(addr)).await {
+            Ok(Ok(mut s)) if end.starts_with("frag") => {
+                // the upgrade request arrives in pieces (every byte on its own / three pieces with a stall in between)
+                use tokio::io::AsyncReadExt;
+                let _ = s.set_nodelay(true);
+                let text = format!("GET {}?who=7 HTTP/1.1\r\nHost: x\r\nConnection: Upgrade\r\nUpgrade: websocket\r\nSec-WebSocket-Version: 13\r\nSec-WebSocket-Key: dGhlIHNhbXBsZSBub25jZQ==\r\n\r\n", req);
+                let bytes = text.as_bytes();
+                let cuts: Vec<usize> = if end == "frag1" { (1..=bytes.len()).collect() } else { vec![5, bytes.len() - 3, bytes.len()] };
+                let mut from = 0;
+                for (k, c) in cuts.iter().enumerate() {
+                    let _ = s.write_all(&bytes[from..*c]).await;
+                    let _ = s.flush().await;
+                    from = *c;
+                    if end == "frag3" || k % 24 == 0 {
+                        tokio::time::sleep(Duration::from_millis(if end == "frag3" { 20 } else { 1 })).await;
+                    }
+                }
+                let mut head = Vec::new();
+                let mut buf = [0u8; 512];
+                let deadline = tokio::time::Instant::now() + wd();
+                while !head.windows(4).any(|w| w == b"\r\n\r\n") {
+                    match tokio::time::timeout_at(deadline, s.read(&mut buf)).await {
+                        Ok(Ok(n)) if n > 0 => head.extend_from_slice(&buf[..n]),
+                        _ => break,
+                    }
+                }
+                accepted = head.starts_with(b"HTTP/1.1 101");
+                if accepted {
+                    if !hs_until(&cnt.connect, c0 + 1).await {
+                        note = Some("hs-connect-callback-watchdog");
+                    }
+                    drop(s);
+                    if !hs_until(&cnt.disconnect, d0 + 1).await {
+                        fails.push(("lifecycle.disconnect.missing".into(), "disconnect callback not invoked after the accepted connection was dropped".into()));
+                    }
+                    hs_until(&cnt.conn_err, e0 + 1).await;
+                } else {
+                    hs_until(&cnt.hs_err, h0 + 1).await;
+                }
+            }
             Ok(Ok(s)) => {
                 let b: BoxIo = Box::new(s);
                 match tokio::time::timeout(wd(), tokio_tungstenite::client_async(format!("ws://{}{}?who=7", addr, req), b)).await {
@@ -2175,10 +2226,10 @@ async fn run_hs(plan: HsPlan, server_rt: &tokio::runtime::Runtime, out: &Mutex<O
 fn plan_hs() -> Vec<HsPlan> {
     let cfgs = ["", "/", "repe", "/repe", "repe/", "/repe//", "a/b", "/a/b/", "//", "/x-y_z"];
     let reqs = ["/", "/repe", "/repe/", "/a/b", "/a/b/", "/a", "/x-y_z", "/other"];
-    let ends = ["close", "malformed", "text"];
+    let ends = ["close", "malformed", "text", "frag1", "frag3"];
     cfgs.iter()
         .enumerate()
-        .map(|(i, c)| HsPlan { cfg: c.to_string(), reqs: reqs.iter().enumerate().map(|(j, r)| (format!("h{i}.{j}"), r.to_string(), ends[(i + j) % 3].to_string())).collect() })
+        .map(|(i, c)| HsPlan { cfg: c.to_string(), reqs: reqs.iter().enumerate().map(|(j, r)| (format!("h{i}.{j}"), r.to_string(), ends[(i + j) % 5].to_string())).collect() })
         .collect()
 }
 
@@ -2367,7 +2418,114 @@ fn plan_burst(rng: &mut Rng, thorough: bool) -> Vec<BurstPlan> {
     v
 }
 
+// ---------------------------------------------------------------------------------------------
+// runs (`hsrun` op lines): N rejected upgrades in a row, then M accepted connections one after the other on the
+// same server while the first of them stays open — the N-th / M-th must be treated like the first
+// ---------------------------------------------------------------------------------------------
+struct HsRun {
+    idx: String,
+    nrej: usize,
+    nacc: usize,
+}
+
+async fn run_hsrun(p: HsRun, server_rt: &tokio::runtime::Runtime, out: &Mutex<Out>) {
+    let cnt = Arc::new(HsCount::default());
+    let (c1, c3, c4) = (cnt.clone(), cnt.clone(), cnt.clone());
+    let router = Router::new().with_json_ctx("/whoami", |ctx: &CallContext, _v: Value| Ok(json!(ctx.peer().map(|p| p.peer_id().0))));
+    let server = WebSocketServer::new(router)
+        .on_peer_connect(move |_p: PeerHandle| {
+            c1.connect.fetch_add(1, Ordering::SeqCst);
+        })
+        .on_peer_disconnect(move |_id: PeerId| {
+            c3.disconnect.fetch_add(1, Ordering::SeqCst);
+        })
+        .on_error(move |e| {
+            if matches!(e, repe::ConnectionError::Handshake(_)) {
+                c4.hs_err.fetch_add(1, Ordering::SeqCst);
+            }
+        });
+    let l = std::net::TcpListener::bind("127.0.0.1:0").expect("bind");
+    l.set_nonblocking(true).unwrap();
+    let addr = l.local_addr().unwrap();
+    let task = server_rt.handle().spawn(async move {
+        let l = tokio::net::TcpListener::from_std(l).unwrap();
+        let _ = server.serve_listener(l, "/repe").await;
+    });
+    let line = format!("hsrun {} {} {}", p.idx, p.nrej, p.nacc);
+    let mut fails: Vec<(String, String)> = Vec::new();
+    let connect = |path: &'static str| async move {
+        let s = tokio::time::timeout(wd(), tokio::net::TcpStream::connect(addr)).await.ok()?.ok()?;
+        let b: BoxIo = Box::new(s);
+        tokio::time::timeout(wd(), tokio_tungstenite::client_async(format!("ws://{addr}{path}"), b)).await.ok()?.ok().map(|x| x.0)
+    };
+    let mut wrongly_accepted = 0;
+    for _ in 0..p.nrej {
+        if connect("/wrong").await.is_some() {
+            wrongly_accepted += 1;
+        }
+    }
+    hs_until(&cnt.hs_err, p.nrej as u64).await;
+    let mut ids: Vec<u64> = Vec::new();
+    let mut first: Option<Ws> = None;
+    let mut lost = 0;
+    for i in 0..p.nacc {
+        match connect("/repe").await {
+            Some(mut ws) => {
+                match rx_call(&mut ws, 1, "/whoami", &json!(null)).await.ok().and_then(|v| v.as_u64()) {
+                    Some(id) => ids.push(id),
+                    None => lost += 1,
+                }
+                if i == 0 {
+                    first = Some(ws);
+                } else {
+                    let _ = ws.send(WsMsg::Close(None)).await;
+                    drop(ws);
+                }
+            }
+            None => lost += 1,
+        }
+    }
+    drop(first);
+    hs_until(&cnt.disconnect, (p.nacc - lost) as u64).await;
+    tokio::time::sleep(Duration::from_millis(10)).await;
+    task.abort();
+    let (c, d, h) = (cnt.connect.load(Ordering::SeqCst), cnt.disconnect.load(Ordering::SeqCst), cnt.hs_err.load(Ordering::SeqCst));
+    let mut sorted = ids.clone();
+    sorted.sort();
+    let distinct = sorted.windows(2).all(|w| w[0] != w[1]);
+    if !distinct {
+        fails.push(("lifecycle.peer_id.duplicate".into(), format!("{} connections one after the other while the first stays open: ids {:?} repeat", p.nacc, sorted.windows(2).filter(|w| w[0] == w[1]).map(|w| w[0]).collect::<Vec<_>>())));
+    }
+    if wrongly_accepted > 0 || c as usize > p.nacc {
+        fails.push(("lifecycle.handshake_failure.hooks_fired".into(), format!("{} rejected upgrades in a row: {wrongly_accepted} were accepted, {c} connect callbacks for {} accepted connections", p.nrej, p.nacc)));
+    }
+    if lost > 0 || (c as usize) < p.nacc {
+        fails.push(("lifecycle.connect.missing".into(), format!("after {} rejected upgrades, {} accepted connections one after the other: {lost} were not served, {c} connect callbacks", p.nrej, p.nacc)));
+    }
+    if d as usize > p.nacc {
+        fails.push(("lifecycle.disconnect.duplicate".into(), format!("{d} disconnect callbacks for {} connections", p.nacc)));
+    } else if (d as usize) < p.nacc {
+        fails.push(("lifecycle.disconnect.missing".into(), format!("{d} disconnect callbacks for {} connections", p.nacc)));
+    }
+    let obs = format!("{} rejects={} herr={} hooks={}/{} ids={}", p.idx, p.nrej - wrongly_accepted, h, c, d, if distinct && ids.len() == p.nacc { "distinct" } else { "collide" });
+    let mut o = out.lock().unwrap();
+    for (sig, detail) in fails {
+        o.oracle_fail(&sig, &format!("[{line}] {detail}"), &[line.clone()]);
+    }
+    o.count("hsrun");
+    o.case(&line, &obs, true);
+}
+
+fn plan_hsrun(thorough: bool) -> Vec<HsRun> {
+    let mut v: Vec<(usize, usize)> = vec![(1, 1), (2, 2), (7, 8), (9, 9), (16, 17), (17, 65), (64, 2), (65, 66)];
+    if thorough {
+        v.extend([(256, 257), (1000, 3)]);
+    }
+    v.into_iter().enumerate().map(|(i, (nrej, nacc))| HsRun { idx: format!("hr{i}"), nrej, nacc }).collect()
+}
+
 enum AnyPlan {
+    HsRun(HsRun),
     Life(Plan),
     Rx(RxPlan),
     Hs(HsPlan),
@@ -2388,6 +2546,7 @@ fn main() {
             let nrx = if args.thorough() { 600 } else { 60 };
             let mut v: Vec<AnyPlan> = plan_hs().into_iter().map(AnyPlan::Hs).collect();
             v.extend(plan_burst(&mut rng, args.thorough()).into_iter().map(AnyPlan::Burst));
+            v.extend(plan_hsrun(args.thorough()).into_iter().map(AnyPlan::HsRun));
             v.extend((0..nrx).map(|i| AnyPlan::Rx(plan_rx(&mut rng, 100_000 + i))));
             v.extend(plan(&mut rng, args.thorough()).into_iter().map(AnyPlan::Life));
             v
@@ -2420,6 +2579,7 @@ fn main() {
                 AnyPlan::Rx(p) => run_rx(p, &server_rt, &out).await,
                 AnyPlan::Hs(p) => run_hs(p, &server_rt, &out).await,
                 AnyPlan::Burst(p) => run_burst(p, &server_rt, &out).await,
+                AnyPlan::HsRun(p) => run_hsrun(p, &server_rt, &out).await,
             }
             // a failing input has been found and recorded with its replay: no need to wait out the watchdogs
             // of every later group
